@@ -5,12 +5,27 @@
     eval.RunDSL runs each case on recording roots/expressions (drivers/eval); the summaries are
     compared and the recorded callback sequence of every case is validated by Trace_Eval.tla, which
     binds the one free choice of the model (the dependency order actually used).
-(J) seeded random 5-6-root cases run on the real code, validated by Trace_Eval.tla."""
+(J) seeded random 5-6-root cases run on the real code, validated by Trace_Eval.tla.
+The error dimension (spaces errs / errsq of Eval.tla): WHERE an error is reported (the root itself, its first or
+second set, with the other sets empty or not; DSL / Prepare / Validate / Finalize) and HOW (eval.ReportError,
+Context.Record, a returned *ValidationErrors, both, an empty or nil *ValidationErrors), by expressions implementing
+any subset of Source / Preparer / Validator / Finalizer."""
 import glob, itertools, json, os, re
 from concurrent.futures import ThreadPoolExecutor
 from vlib import core
 
-DEVS = ["eval.late_roots_ignored", "eval.same_set_append_not_executed"]
+DEVS = ["eval.late_roots_ignored", "eval.same_set_append_not_executed",
+        "eval.finalize_errors_dropped", "eval.typed_nil_validation_panics"]
+# the configuration (of mc/) in which the deviation can show
+DEV_CFG = {"eval.late_roots_ignored": ("mc/MC_Eval_2.cfg", {"MaxExprs": 1}),
+           "eval.same_set_append_not_executed": ("mc/MC_Eval_2.cfg", {"MaxExprs": 1}),
+           "eval.finalize_errors_dropped": ("mc/MC_Eval_errs.cfg", {"Space": '"errsq"'}),
+           "eval.typed_nil_validation_panics": ("mc/MC_Eval_errs.cfg", {"Space": '"errsq"'})}
+# the behaviours Eval.tla knows (AllToks, RootToks)
+TOKS = {"plain", "append", "appendsame", "reg", "err", "verr", "perr", "vrec", "vboth", "vempty", "vnil", "ferr",
+        "s", "s-err", "pvf", "pvf-perr", "pvf-vrec", "pvf-verr", "pvf-ferr", "v", "v-verr", "v-vrec", "v-vboth", "v-vempty",
+        "p-perr", "f-ferr", "nil"}
+ROOT_TOKS = {"plain", "perr", "vrec", "verr", "vboth", "vempty", "vnil", "ferr", "bare"}
 ROOTS6 = ["a", "b", "c", "d", "e", "f"]
 TRACE = "trace/Trace_Eval"
 CHUNK = 1500          # cases per TLC trace-validation run
@@ -19,9 +34,37 @@ CHUNK = 1500          # cases per TLC trace-validation run
 # ------------------------------------------------------------------ helpers
 def pad(cfg):
     """The trace specification runs over the root universe a..f."""
-    return {"reg": cfg["reg"], "late": cfg.get("late", []),
-            "deps": {r: sorted(cfg["deps"].get(r, [])) for r in ROOTS6},
-            "beh": {r: cfg["beh"].get(r, ["plain"]) for r in ROOTS6}}
+    c = {"reg": cfg["reg"], "late": cfg.get("late", []),
+         "deps": {r: sorted(cfg["deps"].get(r, [])) for r in ROOTS6},
+         "beh": {r: cfg["beh"].get(r, ["plain"]) for r in ROOTS6},
+         "beh2": {r: cfg.get("beh2", {}).get(r, []) for r in ROOTS6},
+         "rb": {r: cfg.get("rb", {}).get(r, "plain") for r in ROOTS6}}
+    check_tokens(c)
+    return c
+
+
+def check_tokens(cfg):
+    """A case must speak the vocabulary of Eval.tla (anything else is our own trouble, not a verdict)."""
+    for r in ROOTS6:
+        bad = [b for b in cfg["beh"][r] if b not in TOKS] + \
+              [b for b in cfg["beh2"][r] if b not in TOKS - {"append", "appendsame", "reg"}] + \
+              ([cfg["rb"][r]] if cfg["rb"][r] not in ROOT_TOKS else [])
+        if bad:
+            raise core.Infra("case uses behaviours unknown to Eval.tla: %s" % bad)
+
+
+def tokens(cfg):
+    used = list(cfg["reg"]) + list(cfg.get("late", []))
+    return [b for r in used for b in cfg["beh"].get(r, []) + cfg.get("beh2", {}).get(r, []) + [cfg.get("rb", {}).get(r, "plain")]]
+
+
+def show(cfg):
+    used = list(cfg["reg"]) + list(cfg.get("late", []))
+    s = "reg=%s late=%s deps=%s beh=%s" % (cfg["reg"], cfg.get("late", []), {r: d for r, d in cfg["deps"].items() if d},
+                                         {r: cfg["beh"][r] for r in used})
+    b2 = {r: cfg["beh2"][r] for r in used if cfg.get("beh2", {}).get(r)}
+    rb = {r: cfg["rb"][r] for r in used if cfg.get("rb", {}).get(r, "plain") != "plain"}
+    return s + (" beh2=%s" % b2 if b2 else "") + (" rootbeh=%s" % rb if rb else "")
 
 
 def case_lines(cfg, obs):
@@ -73,20 +116,25 @@ def features(cfg):
             if x not in seen:
                 seen.add(x)
                 todo += list(deps.get(x, []))
-    # site / feature class of the case (coarse on purpose: one key per kind of graph, not per behaviour mix)
+    # site / feature class of the case (coarse on purpose: one key per kind of graph and per set of phases in
+    # which the expressions of the case report errors, not per behaviour mix)
+    toks = tokens(cfg)
+    suffix = lambda b: b.split("-")[-1]
+    phases = [ph for ph, bs in (("dsl", {"err"}), ("prepare", {"perr"}), ("validate", {"verr", "vrec", "vboth"}), ("finalize", {"ferr"}))
+              if any(suffix(b) in bs for b in toks)]
+    e = "/errors-in-" + "+".join(phases) if phases else ""
     if cyc:
-        return "cyclic-deps"
+        return "cyclic-deps" + e
     if cfg.get("late"):
-        return "late-roots"
+        return "late-roots" + e
     if any(deps.values()):
-        return "dag-deps"
-    return "independent-roots"
+        return "dag-deps" + e
+    return "independent-roots" + e
 
 
 def nontrivial(cfg):
     used = set(cfg["reg"]) | set(cfg.get("late", []))
-    return (len(used) >= 2 and any(cfg["deps"].get(r) for r in used)) or \
-        any(b != "plain" for r in used for b in cfg["beh"].get(r, []))
+    return (len(used) >= 2 and any(cfg["deps"].get(r) for r in used)) or any(b != "plain" for b in tokens(cfg))
 
 
 # ------------------------------------------------------------------ trace validation
@@ -190,6 +238,10 @@ def classify_and_report(ctx, jd, cases, bad, origin):
             return bool(cfg["late"])
         if d == "eval.same_set_append_not_executed":
             return any("appendsame" in b for b in cfg["beh"].values())
+        if d == "eval.finalize_errors_dropped":
+            return any(b.split("-")[-1] == "ferr" for b in tokens(cfg))
+        if d == "eval.typed_nil_validation_panics":
+            return "vnil" in tokens(cfg)
         return True
     tried = set()
     for rnd in ("hinted", "all"):
@@ -221,11 +273,9 @@ def classify_and_report(ctx, jd, cases, bad, origin):
             if n == 0:
                 ok, hwm, k, _ = jd.strict([cases[i]], label="witness")
                 line = cases[i][hwm - 1] if hwm and hwm <= len(cases[i]) else "(end of trace)"
-                desc = ("%d case(s) [%s], smallest: reg=%s late=%s deps=%s beh=%s -> RunDSL returned %s after %d callbacks; "
+                desc = ("%d case(s) [%s], smallest: %s -> RunDSL returned %s %s after %d callbacks; "
                         "Eval.tla (Deviations={}) rejects trace line %d: %s") % (
-                    len(idx), origin, cfg["reg"], cfg["late"],
-                    {r: d for r, d in cfg["deps"].items() if d}, {r: cfg["beh"][r] for r in cfg["reg"] + cfg["late"]},
-                    obs["kind"], len(obs["log"]), hwm, line)
+                    len(idx), origin, show(cfg), obs["kind"], obs["errs"] or "", len(obs["log"]), hwm, line)
             ctx.violation(key, desc or "see first witness", {"cfg": cfg, "observed": obs, "origin": origin})
 
 
@@ -251,16 +301,21 @@ def compare_summary(ctx, vectors, observations):
 def run(ctx):
     quick = ctx.quick()
     ctx.cov["rule"] = ("cases = every configuration TLC enumerates from Eval.tla's CfgSpace (roots, registration order, dependency digraph, "
-                       "behaviours, late roots) plus seeded random 5-6-root cases; non-trivial = at least one dependency edge among >=2 roots "
-                       "or at least one non-plain expression; distinct = canonical JSON of the configuration")
+                       "behaviours, late roots; error sites and kinds) plus seeded random 5-6-root cases; non-trivial = at least one dependency "
+                       "edge among >=2 roots or at least one non-plain expression or root; distinct = canonical JSON of the configuration")
     ctx.assumptions += [
         "envelope: no self-dependency; an initially registered root depends only on initially registered roots; a late root depends on another "
         "late root only if that one is certainly registered before the dependent one is picked up (no order can satisfy the statement otherwise)",
         "when late roots close a dependency cycle and the DSL also reported errors, either error may be returned (the statement does not say)",
-        "each root walks two expression sets; expressions appended during execution are plain"]
+        "each root walks two expression sets; expressions appended during execution are plain; the initial expressions of the second "
+        "set do not append or register",
+        "the statement is silent on errors recorded while preparing: modelled as the code does (the validate phase still runs, the errors "
+        "of both phases are returned together, finalize does not run)",
+        "a Validate() returning a *ValidationErrors that holds no error (empty, or a nil pointer) reports no error"]
     # ---------------- (M)
     for d in DEVS:
-        ctx.mc_expect_violation("mc/MC_Eval", "mc/MC_Eval_2.cfg", consts={"MaxExprs": 1, "Deviations": devset([d])},
+        cfgf, consts = DEV_CFG[d]
+        ctx.mc_expect_violation("mc/MC_Eval", cfgf, consts=dict(consts, Deviations=devset([d])),
                                 label="MC dev " + d.split(".")[-1])
     # the Gen configurations check every invariant (and Terminates) over the same spaces while they emit
     # the cases, with any admissible root order (Canonical = FALSE), so the quick tier does not run
@@ -269,11 +324,15 @@ def run(ctx):
         ctx.mc("mc/MC_Eval", "mc/MC_Eval_2.cfg", label="MC 2 roots (+Terminates)", timeout=1500)
         ctx.mc("mc/MC_Eval", "mc/MC_Eval_3.cfg", label="MC 3 roots", timeout=1500)
         ctx.mc("mc/MC_Eval", "mc/MC_Eval_4.cfg", label="MC 4 roots", timeout=3000, heap="24g")
+        ctx.mc("mc/MC_Eval", "mc/MC_Eval_errs.cfg", label="MC error sites (+Terminates)", timeout=1500)
     # ---------------- (G)
     vectors = []
     gens = ["gen/Gen_Eval_2.cfg", "gen/Gen_Eval_3.cfg", "gen/Gen_Eval_late.cfg"] + ([] if quick else ["gen/Gen_Eval_4.cfg"])
     for g in gens:
         vectors += ctx.gen("mc/MC_Eval", g, label=os.path.basename(g)[:-4], timeout=3000, heap=None if quick else "24g").vectors
+    # where and how errors are reported: quick = the space errsq, thorough = errs (more pairs, a dependency edge)
+    vectors += ctx.gen("mc/MC_Eval", "gen/Gen_Eval_errs.cfg", consts=None if quick else {"Space": '"errs"'},
+                       label="Gen_Eval_errs", timeout=3000).vectors
     seen, uniq = {}, []
     for v in vectors:
         v["cfg"] = pad(v["cfg"])
@@ -305,6 +364,8 @@ def run(ctx):
     rcases = split_cases(open(tpath))
     if len(rcases) != nrand:
         raise core.Infra("random driver produced %d cases, expected %d" % (len(rcases), nrand))
+    for c in rcases:
+        check_tokens(case_of(c)[0])
     rbad = jd.validate_all(rcases, "J")
     ctx.cov["traces_validated_against_impl"] += len(rcases)
     ctx.cov["evaluations"] += len(rcases)
@@ -364,14 +425,13 @@ def selftest(ctx, jd, cases, bad, rcases, rbad):
 
 def replay(ctx, rp):
     case = rp["case"]
-    cfg = case["cfg"]
+    cfg = pad(case["cfg"])
     obs, _, _ = ctx.drive("drivers/eval", [{"cfg": cfg}])
     o = obs[0]["obs"]
     jd = Judge(ctx)
     lines = case_lines(cfg, o)
     ok, hwm, _, _ = jd.strict([lines], label="replay")
-    print("case:     reg=%s late=%s deps=%s beh=%s" % (cfg["reg"], cfg["late"], {r: d for r, d in cfg["deps"].items() if d},
-                                                     {r: cfg["beh"][r] for r in cfg["reg"] + cfg["late"]}))
+    print("case:     " + show(cfg))
     print("observed: RunDSL returned %s %s after callbacks %s" % (o["kind"], o["errs"], o["log"]))
     if ok:
         print("the recorded behaviour is a behaviour of Eval.tla")
